@@ -106,19 +106,19 @@ const TRK_RULE: &str = "a case = generated network (corridor with sidings, flips
 
 const VAL_REAL: &[&str] = &["altrios_core::track::{Network, Link}::validate and every ObjState::validate below it (real code)", "Network::from_yaml / from_json / from_reader / from_file incl. legacy-layout fallback (real code, real files in a scratch directory)"];
 const VAL_STUB: &[&str] = &["reader: simulated Read with short reads, EINTR, hard error and early EOF at seeded bytes"];
-const VAL_RULE: &str = "a case = one generated valid network; every mutation kind (57 rule-breaking, 10 rule-keeping, 2 non-finite-extent) is applied at every link where it is expressible (enumerated), each judged by validate() and a 6 % seeded sample also by the yaml/json/reader/file/legacy-file load paths; distinct = distinct base networks (hash of the link data); non-trivial = network with >= 2 real links";
+const VAL_RULE: &str = "a case = one generated valid network; every mutation kind (62 rule-breaking incl. references dropped on one side only, 13 rule-keeping, 2 non-finite-extent) is applied at every link where it is expressible (enumerated), each judged by validate() and a 6 % seeded sample also by the yaml/json/reader/file/legacy-file load paths; distinct = distinct base networks (hash of the link data); non-trivial = network with >= 2 real links";
 
 const MASS_REAL: &[&str] = &["Mass trait setters/getters of FuelConverter, Generator, ReversibleEnergyStorage, Locomotive (set_mass, set_mu, set_force_max), Consist::mass/force_max (real code)", "SerdeAPI reload incl. init() consistency checks (real code)"];
 const MASS_STUB: &[&str] = &["no clock, no schedule: sequential reference-model comparison (weak fit, DESIGN 5)"];
-const MASS_RULE: &str = "a case = target (component / locomotive with or without redundant mass data / consist) built from a file + seeded sequence of 1-12 setter calls with all side-effect options, reloads and updates that must be rejected; distinct = distinct hash of (target, which fields known initially, fault kinds fired, probes); non-trivial = at least 2 ops";
+const MASS_RULE: &str = "a case = target (component / locomotive with or without redundant mass data / consist) built from a file + seeded sequence of 1-12 setter calls with all side-effect options, reloads, updates that must be rejected and (locomotives with redundant mass data) a component changed inside the locomotive through its own setter followed by a re-synchronising set_mass; distinct = distinct hash of (target, which fields known initially, fault kinds fired, probes); non-trivial = at least 2 ops";
 
 const TRN_REAL: &[&str] = &["TrainSimBuilder, SetSpeedTrainSim, SpeedLimitTrainSim (step, extend_path, walk, walk_timed_path), BrakingPoints, FricBrake, TrainRes/Strap, PathTpc, Consist and everything below it (real code)", "SerdeAPI save/load of the whole simulation mid-run (real code)"];
 const TRN_STUB: &[&str] = &["dispatcher -> train authority channel: simulated (early / just in time / late / batched / empty deliveries)", "clock: the simulator issues every step; dt per run in {0.5, 1, 2} s, irregular trace stamps for set-speed runs", "pyo3 layer / run_speed_limit_train_sims: not run"];
-const TRN_RULE: &str = "a case = generated network (0-3 sidings, grades up to the bound, 0-4 extra restrictions per link, very short to very long links) + route + generated train (1-3 car types, 5-150 cars, 2-6 units incl. generated ones, optional mass/length overrides) + driver (set-speed trace via shipped walk or simulator steps; speed-limited via shipped walk, walk_timed_path or simulator steps with an authority-delivery schedule) + crash/restore and interval-change points; distinct = distinct hash of (scenario class, fault kinds fired, probes hit); non-trivial = at least 5 (set-speed) / 20 (speed-limited) executed steps";
+const TRN_RULE: &str = "a case = generated network (0-3 sidings, grades up to the bound, 0-4 extra restrictions per link, very short to very long links) + route + generated train (1-3 car types, 5-150 cars, 2-6 units incl. generated ones and occasionally the shipped hybrid unit, optional mass/length overrides, optional initial front offset, friction-brake ramp-up 0 s or 5-60 s) + optional 'heavy train behind one or two units on a long descent' scenario + driver (set-speed trace via shipped walk or simulator steps; speed-limited via shipped walk, walk_timed_path or simulator steps with an authority-delivery schedule) + crash/restore and interval-change points (optionally with a unit given an interval of its own first) + rolling-start / exact-landing set-speed traces + a run picked up by walk() after steps by hand; distinct = distinct hash of (scenario class, fault kinds fired, probes hit); non-trivial = at least 5 (set-speed) / 20 (speed-limited) executed steps";
 
 const DSP_REAL: &[&str] = &["make_est_times (real code, incl. thousands of SpeedLimitTrainSim steps per train)", "run_dispatch with its own scheduler, TrainDisp advance / rewind / free-path search / deadlock check (real code)", "observer hook H3/H4 reading link_disp_auths, links_blocked, TrainDisp views after every train move", "walk_timed_path protocol on the returned plans (sampled)"];
 const DSP_STUB: &[&str] = &["the dispatcher's scheduler is NOT replaced: its schedule space is sampled through departure times (incl. ties), train order, lengths, directions, topology and lockouts", "no fault is injected into the dispatcher (it has no I/O); its own rewinds / re-routes are the fault-like events, counted by probes"];
-const DSP_RULE: &str = "a case = generated corridor (0-5 sidings that fit / do not fit the trains, optional lockout declarations) + 1-10 generated trains in both directions with departure times incl. ties; distinct = distinct hash of (scenario class, probes hit, the sequence of (train, outcome) moves the dispatcher made); non-trivial = at least 2 trains";
+const DSP_RULE: &str = "a case = generated corridor (1-9 sidings of 1-3 links per track that fit / do not fit the trains, optional lockout declarations, up to two extra speed restrictions per link in half of the cases, optionally two-track yards as origins / destinations) + 1-10 generated trains in both directions with departure times incl. ties; distinct = distinct hash of (scenario class, probes hit, the sequence of (train, outcome) moves the dispatcher made); non-trivial = at least 2 trains";
 
 const THR_REAL: &[&str] = &["LocomotiveSimulationVec::walk and every LocomotiveSimulation::walk/step under it (real code)", "the worlds trn / dsp / trk / val / pt re-executed under different RandomState keys, rayon pool sizes and thread histories (real code)", "rayon branch of LocomotiveSimulationVec::walk in local pools of 1, 2, 4, 16 threads (real code, uncontrolled threads: observation, labelled as such)"];
 const THR_STUB: &[&str] = &["rayon's pool in the controlled runs: executor seam H2 reproducing try_for_each's contract on shuttle threads (W workers claim from a shared queue; after an error no new claims, in-flight elements finish)", "thread scheduler: shuttle Random / PCT, seeded", "getrandom(2): interposed, RandomState keys derived from the case"];
@@ -126,7 +126,7 @@ const THR_RULE: &str = "a case = (a) batch of 1-12 generated locomotive simulati
 
 const IO_REAL: &[&str] = &["SerdeAPI::{to_yaml,to_json,to_bincode,from_*,from_reader,to_file,from_file,init} of every exported type (real code)", "LocomotiveSimulation / ConsistSimulation / SetSpeedTrainSim / SpeedLimitTrainSim stepping before and after the reload (real code)", "real files in a private scratch directory (file channel)"];
 const IO_STUB: &[&str] = &["reader: simulated Read with short reads, EINTR, hard error at a seeded byte", "crash during a save: modelled after the fact by truncating the written bytes (exercised, not armed: nobody promises atomic saves)"];
-const IO_RULE: &str = "a case = (a) the zoo of 25 exported types in default / valid states, or (b) a generated locomotive / consist simulation of 4-40 steps with EVERY step index as a crash point x 3 formats (string or faulty-reader channel), with limit checking on or off and optional braking in the first steps, or (c) a generated set-speed / speed-limited train simulation (finished or unfinished path) with 8 sampled crash points x 3 formats, plus round trips of its builder, path, network and est-time network, or (d, 30 %) a pt-world run with seeded crash ops and a fault-free twin; distinct = distinct hash of (scenario class, fault kinds fired); non-trivial = at least 5 steps";
+const IO_RULE: &str = "a case = (a) the zoo of 25 exported types in default / valid states, or (b) a generated locomotive / consist simulation of 4-40 steps with EVERY step index as a crash point x 3 formats (string or faulty-reader channel), with limit checking on or off, optional braking in the first steps, the shipped hybrid unit on 15 % of the locomotives and calibration setters (set_eta_max / set_eta_range) applied to finished components in a fifth of the cases; file saves meet an older, longer file at the path two times in three, or (c) a generated set-speed / speed-limited train simulation (finished or unfinished path) with 8 sampled crash points x 3 formats, plus round trips of its builder, path, network and est-time network, or (d, 30 %) a pt-world run with seeded crash ops and a fault-free twin; distinct = distinct hash of (scenario class, fault kinds fired); non-trivial = at least 5 steps";
 
 pub const PROPS: &[PropInfo] = &[
     PropInfo { id: "C17", world: "io", level: "fault_enumeration", quick_runs: 3_000, thorough_runs: 150_000, rule: IO_RULE, real: IO_REAL, stub: IO_STUB,
